@@ -131,6 +131,42 @@ func runC09Benign(rc *runCtx) *RunResult {
 		plan simio.ReadPlan
 		name string
 	}{dbr, dp, fmt.Sprintf("drawn(shape=%v chunks=%v eofWithData=%v zeroEvery=%d)", dbr, dp.Chunks, dp.EOFWithData, dp.ZeroEvery)})
+	// a receiver that already holds another value of the type: Decode must replace it completely
+	{
+		var first any
+		if pv := guard("draw:"+ct.name, func() { first = ct.draw(g) }); pv == nil {
+			var fb bytes.Buffer
+			if ct.encode(first, &fb) == nil {
+				rc.inc("evals", 1)
+				rc.inc("reused_receiver_decodes", 1)
+				var dv any
+				var derr error
+				if pv := guard("decode-into-used-receiver:"+ct.name, func() {
+					dv, derr = ct.decode2(simio.NewShapedReader(fb.Bytes(), simio.NoReadFaults(), simio.ShapeByteReader), simio.NewShapedReader(enc, simio.NoReadFaults(), simio.ShapeByteReader))
+				}); pv != nil {
+					res.Viol = pv
+					return res
+				}
+				if derr != nil {
+					res.Viol = &Violation{Kind: "decode-error-benign", Site: ct.name + "/used-receiver", Detail: fmt.Sprintf("Decode of %s into a receiver that already held %s failed: %v", describeValue(ct, v), describeValue(ct, first), derr)}
+					return res
+				}
+				if d := ct.equal(v, dv); d != "" {
+					res.Viol = &Violation{Kind: "roundtrip-mismatch", Site: ct.name + fmtSuffix(fm) + "/used-receiver", Detail: fmt.Sprintf("%s %s decoded into a receiver that already held %s differs from the original: %s", describeValue(ct, v), fm, describeValue(ct, first), d)}
+					return res
+				}
+				var got Ans
+				if pv := guard("use-decoded:"+ct.name, func() { got = ct.use(dv, pts, cells) }); pv != nil {
+					res.Viol = pv
+					return res
+				}
+				if !eqAns(want, got) {
+					res.Viol = &Violation{Kind: "roundtrip-answers-differ", Site: ct.name + fmtSuffix(fm) + "/used-receiver", Detail: fmt.Sprintf("%s %s decoded into a receiver that already held %s: queries answer differently from the original (first difference at answer word %d)", describeValue(ct, v), fm, describeValue(ct, first), firstDiff(want, got))}
+					return res
+				}
+			}
+		}
+	}
 	for _, pl := range plans {
 		rc.inc("evals", 1)
 		if pl.plan.EOFWithData {
